@@ -186,7 +186,13 @@ class SyncObj(object):
         self.__numOneSecondDumps = 0
         globalDnsResolver().setTimeouts(self.__conf.dnsCacheTime, self.__conf.dnsFailCacheTime)
         globalDnsResolver().setPreferredAddrFamily(self.__conf.preferredAddrType)
-        self.__serializer = Serializer(self.__conf.fullDumpFile,
+        self.__fullDumpFile = self.__conf.fullDumpFile
+        if self.__fullDumpFile is None and self.__conf.journalFile is not None:
+            # Log compaction and a snapshot received from the leader drop the head of the journal.
+            # What was dropped can only be restored after a restart from a dump file, so a
+            # journal always gets one (next to its .meta file) even if none was configured.
+            self.__fullDumpFile = self.__conf.journalFile + '.dump'
+        self.__serializer = Serializer(self.__fullDumpFile,
                                        self.__conf.logCompactionBatchSize,
                                        self.__conf.useFork,
                                        self.__conf.serializer,
@@ -571,7 +577,7 @@ class SyncObj(object):
             return
 
         if self.__needLoadDumpFile:
-            if self.__conf.fullDumpFile is not None and os.path.isfile(self.__conf.fullDumpFile):
+            if self.__fullDumpFile is not None and os.path.isfile(self.__fullDumpFile):
                 self.__loadDumpFile(clearJournal=False)
             self.__needLoadDumpFile = False
 
